@@ -566,6 +566,11 @@ Step ==
             /\ S' = SS /\ UNCHANGED <<cfg, Rq, Cn>>
             /\ viol' = viol \o tv \o (IF e.upgrading /\ e.sentProbe /\ ~e.ponged
                                        THEN <<V("C08", "probe_of_entertained_candidate_not_answered", e.sid, "")>> ELSE <<>>)
+       [] e.e = "earlymsg" ->
+            \* a message sent by a client that has read its open packet belongs to an open session: it is delivered
+            /\ S' = SS /\ UNCHANGED <<cfg, Rq, Cn>>
+            /\ viol' = viol \o tv \o (IF e.held /\ e.sent /\ ~e.delivered
+                                       THEN <<V("C02", "message_before_connection_event_lost", e.sid, [kind |-> e.kind, point |-> e.point])>> ELSE <<>>)
        [] e.e = "tickwin" ->
             \* the tick of the refreshed timer was held before the timer's mutex when the heartbeat packet was accepted: it is stale
             /\ S' = SS
